@@ -233,7 +233,10 @@ theorem invisible_is_none_topdown (cast : Nat → R) (c : TopDownCfg) (H W : Nat
     (topdownAnimal cast c H W cen δc pts).pts[i]? = some none := by
   simp [topdownAnimal, List.getElem?_eq_getElem hi, hp]
 
-/-- and a visible one is never turned into a missing one -/
+/-- and a visible one is never turned into a missing one — "visible" in the model means labelled AND
+detectable: the model has no threshold, the hypothesis "the ideal peak reaches `peak_threshold`"
+(worst case `exp(−1/(4σ²))` at a half-cell offset) is applied by the harness when it builds the model's
+input (σ = 0.35 cell at threshold 0.2 legitimately returns NaN), and is varied on every run -/
 theorem visible_is_some_single (cast : Nat → R) (pre : Bool) (c : SingleCfg) (H W : Nat) (p δ : R × R) :
     (singlePoint cast pre c H W (some p) δ).isSome := rfl
 
